@@ -257,6 +257,28 @@ func (e *explorer) explore(prefix []int) {
 		y := Run(x.Choices(), e.cfg.MaxSteps, false, e.cfg.Body)
 		if y.seqHash != x.seqHash || len(y.Points) != len(x.Points) || y.Status != x.Status {
 			EngineError("%s: nondeterministic execution for choices %v (seq %x vs %x, points %d vs %d, status %q vs %q)", e.cfg.Name, x.Choices(), x.seqHash, y.seqHash, len(x.Points), len(y.Points), x.Status, y.Status)
+			a := Run(x.Choices(), e.cfg.MaxSteps, true, e.cfg.Body)
+			b := Run(x.Choices(), e.cfg.MaxSteps, true, e.cfg.Body)
+			for i := 0; i < len(a.Trace) || i < len(b.Trace); i++ {
+				la, lb := "<end>", "<end>"
+				if i < len(a.Trace) {
+					la = a.Trace[i]
+				}
+				if i < len(b.Trace) {
+					lb = b.Trace[i]
+				}
+				if la != lb {
+					lo := i - 12
+					if lo < 0 {
+						lo = 0
+					}
+					for j := lo; j < i; j++ {
+						fmt.Printf("   both: %s\n", a.Trace[j])
+					}
+					fmt.Printf("   run A: %s\n   run B: %s\n", la, lb)
+					break
+				}
+			}
 			e.stop = true
 			return
 		}
